@@ -722,6 +722,22 @@ pub fn section_struct<W: Write>(file: &AsepriteFile, w: &mut W) -> fmt::Result {
         file.tilesets().len(),
         file.tilesets().is_empty() as u32
     )?;
+
+    // 21 8 k 0 r: the iterator protocol of layers(): count(), last(), nth(1), next() and
+    // last() after a full drain, skip(num_layers).last() (-1 = None)
+    let id_or = |l: Option<asefile::Layer>| l.map_or(-1i64, |l| l.id() as i64);
+    writeln!(w, "21 8 0 0 {}", file.layers().count())?;
+    writeln!(w, "21 8 1 0 {}", id_or(file.layers().last()))?;
+    writeln!(w, "21 8 2 0 {}", id_or(file.layers().nth(1)))?;
+    let mut it = file.layers();
+    while it.next().is_some() {}
+    writeln!(w, "21 8 3 0 {}", id_or(it.next()))?;
+    let mut it = file.layers();
+    for _ in 0..num_layers {
+        it.next();
+    }
+    writeln!(w, "21 8 4 0 {}", id_or(it.last()))?;
+    writeln!(w, "21 8 5 0 {}", id_or(file.layers().skip(num_layers as usize).last()))?;
     Ok(())
 }
 
